@@ -337,7 +337,42 @@ def w4(prog, ctx):
         ctx.ok("W3", "src/file_utils.py:%d" % m.lineno, "merge_counts writes the three stat lines from summed stats")
 
 
+def w5(prog, ctx):
+    """Fractional weights need a float accumulator: the per-feature cell type must be float."""
+    init = prog.func(LRC, "AssignedFeatureCounter.__init__")
+    fc = [s_ for s_ in walk_no_nested(init) if isinstance(s_, ast.Assign) and dotted(s_.targets[0]) == "self.feature_counter"]
+    if len(fc) != 1:
+        raise AnalysisError("AssignedFeatureCounter.feature_counter definition not found")
+    v = fc[0].value
+    cell = None
+    if isinstance(v, ast.Call) and (call_name(v) or "").endswith("defaultdict") and v.args:
+        a = v.args[0]
+        if isinstance(a, ast.Name):
+            cell = (a.id, None)
+        elif isinstance(a, ast.Lambda) and isinstance(a.body, ast.Call):
+            cell = (call_name(a.body), a.body.args[0] if a.body.args else None)
+    if cell is None or cell[0] != "IncrementalDict":
+        ctx.fail("W4", fc[0], init._qualname, src(fc[0]), "feature_counter cells are not IncrementalDict accumulators")
+        return
+    typ = cell[1]
+    if typ is None:
+        idi = prog.func(LRC, "IncrementalDict.__init__")
+        defaults = idi.args.defaults
+        typ = defaults[-1] if defaults else None
+    if typ is None or src(typ) != "float":
+        ctx.fail("W4", fc[0], init._qualname, "%s with cell type %s" % (src(fc[0]), src(typ) if typ is not None else None),
+                 "the per-feature accumulator is created with type %s: IncrementalDict.inc() converts the first weight with that "
+                 "type, so a first contribution of 1/k is truncated and the table value depends on read order"
+                 % (src(typ) if typ is not None else None))
+    else:
+        ctx.ok("W4", "%s:%d" % (LRC, fc[0].lineno), "feature_counter cells accumulate as float")
+    inc = prog.func(LRC, "IncrementalDict.inc")
+    if "self.default_type(value)" not in src(inc) or "+= value" not in src(inc):
+        ctx.fail("W4", inc, inc._qualname, "inc", "IncrementalDict.inc no longer stores type(value) then adds")
+
+
 def run(prog, ctx):
+    ctx.rule("W4", "the accumulator cell type of AssignedFeatureCounter.feature_counter resolves to float (weights 1/k are fractional)")
     ctx.rule("W1", "path enumeration of ReadWeightCounter.process_* with a one-variable interval domain for the feature count: every "
                    "return is 0, 1 or 1/k; 1 only if k <= 1; 1/k only with the documented strategy flags positive on the path; the "
                    "strategy->flag table equals docs/cmd.md")
@@ -349,6 +384,7 @@ def run(prog, ctx):
     w2(prog, ctx)
     w3(prog, ctx)
     w4(prog, ctx)
+    w5(prog, ctx)
     ctx.assume("the feature count passed to process_inconsistent is >= 1 (a read reaching it has at least one matched feature)")
     ctx.assume("equality of printed values with sums over reads, %.2f rounding, TPM rescaling and cross-chromosome merging are value-level and not decided")
     ctx.assume("a multi-mapped read kept on two loci is weighted per record (observation in DESIGN.md section 7), not decided here")
